@@ -90,6 +90,15 @@ def main():
                         if got != want:
                             mismatch("projection", "create(projection=%r) on a dictionary with projection %r: surfaces %r, expected %r" % (p, dict_projection, got[:6], want[:6]),
                                      {"text": text, "mode": mode})
+                        # the projection of the tokenizer also governs the morphemes obtained by splitting its results
+                        for x in pm:
+                            for sm in ("A", "B"):
+                                for kw in ({"add_single": False}, {"add_single": True}):
+                                    for y in x.split(modes[sm], **kw):
+                                        out["projection_checks"] += 1
+                                        if y.surface() != getattr(y, fld)():
+                                            mismatch("projection", "create(projection=%r) on a dictionary with projection %r: split(%s) of %r gives a morpheme whose surface() is %r but its %s is %r"
+                                                     % (p, dict_projection, sm, x.raw_surface(), y.surface(), fld, getattr(y, fld)()), {"text": text, "mode": mode})
                     except (KeyboardInterrupt, SystemExit):
                         raise
                     except BaseException:  # noqa
@@ -108,6 +117,39 @@ def main():
                 out["splits_compared"] += 1
                 if got != want:
                     mismatch("split", "morpheme %d split(%s): python %r, library %r" % (i, sm, got, want), {"text": text, "mode": mode})
+
+    # ---- dictionary building through the Python entry points: same bytes as the library's own compiler
+    out["py_builds"] = 0
+    bpath = os.path.join(sdir, "build.json")
+    if os.path.exists(bpath):
+        import sudachipy.sudachipy as native
+        b = json.load(open(bpath, encoding="utf-8"))
+
+        def same(a, bb):
+            # bytes 8..16 of the header are the creation time
+            return len(a) == len(bb) and a[:8] == bb[:8] and a[16:] == bb[16:]
+
+        try:
+            outp = os.path.join(sdir, "py_system.dic")
+            native.build_system_dic(matrix=os.path.join(sdir, b["matrix"]), lex=[os.path.join(sdir, f) for f in b["lex"]], output=outp, description=b["description"])
+            out["py_builds"] += 1
+            if not same(open(outp, "rb").read(), open(os.path.join(sdir, b["expect"]), "rb").read()):
+                mismatch("build", "build_system_dic from %d lexicon files writes other bytes than the library's compiler" % len(b["lex"]), {"lex": b["lex"]})
+            # the same from in-memory data
+            native.build_system_dic(matrix=open(os.path.join(sdir, b["matrix"]), "rb").read(), lex=[open(os.path.join(sdir, f), "rb").read() for f in b["lex"]], output=outp, description=b["description"])
+            out["py_builds"] += 1
+            if not same(open(outp, "rb").read(), open(os.path.join(sdir, b["expect"]), "rb").read()):
+                mismatch("build", "build_system_dic from bytes writes other bytes than the library's compiler", {"lex": b["lex"]})
+            for u in b.get("users", []):
+                outp = os.path.join(sdir, "py_" + u["expect"])
+                native.build_user_dic(system=os.path.join(sdir, b["expect"]), lex=[os.path.join(sdir, f) for f in u["lex"]], output=outp, description=u["description"])
+                out["py_builds"] += 1
+                if not same(open(outp, "rb").read(), open(os.path.join(sdir, u["expect"]), "rb").read()):
+                    mismatch("build", "build_user_dic(%s) writes other bytes than the library's compiler" % u["expect"], {"lex": u["lex"]})
+        except (KeyboardInterrupt, SystemExit):
+            raise
+        except BaseException as ex:  # noqa
+            mismatch("build", "the library compiles these inputs but the Python entry point raises %r" % (ex,), {})
 
     # ---- API histories: per-call mode override, out= reuse, stale objects, field subsets, projections
     rng = random.Random(seed)
